@@ -999,9 +999,21 @@ def c12_run(ctx):
             ctx.violation(v["what"], dict(engine="S-codec", theorem_or_correspondence="xsv codec"), no_input=True)
         else:
             ctx.violation(v["what"][:600], dict(engine="S-codec", input=v.get("input")))
+    nj, nf = (500, 500) if ctx.tier == "quick" else (20000, 20000)
+    rj = CE.run_json(ctx.rnd.randrange(1, 10 ** 9), nj, nf)
+    for v in rj["violations"][:6]:
+        if v.get("no_input"):
+            ctx.violation(v["what"], dict(engine="S-codec", theorem_or_correspondence="xsv codec J/F/P lines vs xsmodel json"), no_input=True)
+        else:
+            ctx.violation(v["what"][:600], dict(engine="S-codec", json_input=v.get("input")))
+    nd = robust(lambda _sd: V.nu_deep_meta_probe(), "nu deep meta probe")(0)
+    for v in nd["violations"]:
+        ctx.violation(v["what"][:600], dict(engine="V", probe="nu_deep_meta_probe"))
     st = r["stats"]
+    st.update(rj["stats"])
+    st["nu_deep_meta_probes"] = nd["probes"]
     ctx.coverage.update(dict(
-        evaluations=sum(st[k] for k in ("ttl_values", "ttl_strings", "ttl_queries", "ro_values", "ro_queries")),
+        evaluations=sum(st[k] for k in ("ttl_values", "ttl_strings", "ttl_queries", "ro_values", "ro_queries", "json_texts", "frame_texts", "store_probes")),
         distinct_nontrivial=st["accepted"],
         rule="one evaluation = one value or string pushed through the real parse_ttl / TTL serde / TTL::from_query / "
              "ReadOptions::to_query_string / ReadOptions::from_query and through the extracted grammar: structured values at the "
@@ -1015,14 +1027,24 @@ def c12_run(ctx):
 REGISTRY["C12"] = dict(
     prop_file="Props/C12.v", engine="S", run=c12_run,
     replay=lambda ctx, obj: c12_run(ctx),
-    level_text="Coq, by induction on digits (no enumeration): every well-formed TTL survives its string form and its query "
+    level_text="Coq, by induction (no enumeration): every well-formed TTL survives its string form and its query "
                "form; whatever parse_ttl accepts is well formed (never head:0 / out of range); decimal print/parse round trip "
                "with the u64/u32/usize bounds; ReadOptions (all follow modes with ms heartbeats, tail, last-id, limit, context) "
-               "survive client encoding -> server parser; duplicates rejected, unknown keys ignored. Tie: the real parsers and "
-               "printers on thousands of structured values and near-grammar strings vs the extracted grammar.",
-    level_note=TRUSTED + "JSON syntax, percent-encoding and the scru128 text form are oracles. 'Every accepted frame decodes again' is "
-               "carried by the store checks (every frame written is read back through fjall+serde in C01/C05); a meta nested "
-               "deeper than serde_json's recursion limit can only be produced by a Nushell script and is not covered here.",
+               "survive client encoding -> server parser; duplicates rejected, unknown keys ignored. Frames: a model of JSON as "
+               "serde_json writes and reads it (printer with its escapes, recursive-descent parser with the recursion limit, "
+               "numbers, \\u escapes and surrogate pairs, BTreeMap normalisation) and of the Frame (de)serializer: "
+               "parse (print v) = v for EVERY value nested less than 128 levels and = error for every deeper one; every frame "
+               "whose meta nests <= 126 levels decodes to the identical frame, every deeper one does not decode (frame_poison); "
+               "the fixed insert_frame (refuses what does not decode) therefore only stores frames that read back identically "
+               "(C12_accepted_reads_back), the pinned one is refuted by a computed witness. Tie: the real parsers / printers / "
+               "serde_json / Frame deserializer / Store::append+get / a Nushell script on thousands of structured values, "
+               "near-grammar strings, JSON texts (whitespace, escapes, duplicates, nesting 1..600, malformed) and frame texts "
+               "(field order, missing / duplicate / unknown fields, array form, bad ids and TTLs) vs the extracted model.",
+    level_note=TRUSTED + "Percent-encoding, f64 printing/parsing (a non-integer number is its lexeme in the model; texts with "
+               "overflowing floats or > 38-digit integers are skipped in the tie and counted), UTF-8 validation, the scru128 text "
+               "form and ssri::Integrity are oracles. A meta of Some(null) is indistinguishable from no meta in every encoding and "
+               "reads back as None (outside wf_frame; not observable through any interface). The Frame deserializer skips unknown "
+               "fields without a depth limit (model: with), so unknown fields are shallow in the tie.",
     assumptions=["heartbeat durations are whole milliseconds < 2^64 (Duration::from_millis is the only constructor any entry point uses)"])
 
 
